@@ -68,3 +68,41 @@ Example C16_runs :
   reduce Z.max (-100)%Z 4 7 (fun i => nth i [-5;-9;-3;-7;-8;-4;-6]%Z 0%Z) = (-3)%Z /\
   reduce Z.add 0%Z 4 7 (fun i => nth i [-5;-9;-3;-7;-8;-4;-6]%Z 0%Z) = (-42)%Z.
 Proof. vm_compute. split; reflexivity. Qed.
+
+(** * Floating sums: the n*eps*sum|x_i| bound of the property statement
+    Over reals with a rounding after every addition that satisfies the standard model
+    (FLX binary32/binary64 are instances, Properties_C01.C01_rounding_instances), for inputs
+    that are floating-point numbers, every lane count W and every size n: the sum computed
+    as the library computes it (W lane accumulators, horizontal fold, scalar tail) is within
+    ((1+u)^n - 1) * sum|x_i| of the exact sum; the number of roundings any element goes
+    through is in fact at most min(n/W + W - 1, n). *)
+From Coq Require Import Reals.
+From FastorV Require Import Base.Rounding Proofs.SumRounding.
+Theorem C16_sum_rounding :
+  forall (rnd : R -> R) (u : R),
+    (0 <= u)%R -> (forall x, (Rabs (rnd x - x) <= u * Rabs x)%R) -> (forall x, rnd (rnd x) = rnd x) ->
+  forall (f : nat -> R), (forall i, rnd (f i) = f i) ->
+  forall W n, 0 < W ->
+    (Rabs (reduce (fun a b => rnd (a + b)) 0 W n f - Rsum f n) <= E u n * Rsum (fun i => Rabs (f i)) n)%R.
+Proof. exact sum_float_bound. Qed.
+Print Assumptions C16_sum_rounding.
+
+Theorem C16_sum_rounding_depth :
+  forall (rnd : R -> R) (u : R),
+    (0 <= u)%R -> (forall x, (Rabs (rnd x - x) <= u * Rabs x)%R) -> (forall x, rnd (rnd x) = rnd x) ->
+  forall (f : nat -> R), (forall i, rnd (f i) = f i) ->
+  forall W n, 0 < W -> 0 < n ->
+    (Rabs (reduce (fun a b => rnd (a + b)) 0 W n f - reduce Rplus 0 W n f)
+     <= E u (Nat.min (n / W + W - 1)%nat n) * reduce Rplus 0 W n (fun i => Rabs (f i)))%R.
+Proof.
+  intros rnd u Hu He Hi f Hf W n HW Hn.
+  exact (proj1 (proj2 (reduce_float_depth rnd u Hu He Hi f Hf W n HW Hn))).
+Qed.
+
+(** * determinants n <= 4 as TRANSLATED FROM backend/determinant.h on this run (lib/cxx2v.py):
+    over the integers they are the Laplace expansion *)
+From FastorV Require Import Gen.GeneratedLinalg Proofs.ClosedForms.
+Theorem C16_source_determinants :
+  forall a, gen_det2 ZS a = det_spec 2 a /\ gen_det3 ZS a = det_spec 3 a /\ gen_det4 ZS a = det_spec 4 a.
+Proof. intros a. exact (conj (gen_det2_spec a) (conj (gen_det3_spec a) (gen_det4_spec a))). Qed.
+Print Assumptions C16_source_determinants.
